@@ -97,6 +97,10 @@ func (s *Site) Events() []Event {
 		ev = append(ev, Event{Cat: "CALL", Fn: s.Fn})
 	case "varinfer", "call":
 		ev = append(ev, Event{Cat: "CALL", Fn: s.Fn})
+	case "call.arglit":
+		ev = append(ev, Event{Cat: "CALL", Fn: s.Fn})
+		ev = append(ev, Event{Cat: "CTOR", Code: "CTOR01", Type: s.Type})
+		ev = append(ev, Event{Cat: "MENTION", Type: s.Type, Mention: "lit", Ptr: true})
 	case "funcvalue":
 		ev = append(ev, Event{Cat: "REF", Fn: s.Fn})
 	case "mcall":
